@@ -77,21 +77,24 @@ impl<T: Iterator<Item = Token>> TryFrom<&mut Peekable<T>>
 
 impl TryResolve<i64, Integer<i64>> for Integer<LitOrRef<i64>> {
     fn try_resolve(&self, resolver: &impl Resolver<i64>) -> Result<Integer<i64>, ResolveError> {
+        let min = self
+            .range
+            .0
+            .as_ref()
+            .map(|lor| resolver.resolve(lor))
+            .transpose()?;
+        let max = self
+            .range
+            .1
+            .as_ref()
+            .map(|lor| resolver.resolve(lor))
+            .transpose()?;
         Ok(Integer {
-            range: Range(
-                self.range
-                    .0
-                    .as_ref()
-                    .map(|lor| resolver.resolve(lor))
-                    .transpose()?,
-                self.range
-                    .1
-                    .as_ref()
-                    .map(|lor| resolver.resolve(lor))
-                    .transpose()?,
-                self.range.2,
-            ),
-            //.reconsider_constraints(),
+            // same normalisation as for literal bounds: (0..MAX) and (MIN..i64::MAX) are unconstrained
+            range: match (min, max) {
+                (Some(0), None) | (None, Some(i64::MAX)) => Range(None, None, self.range.2),
+                (min, max) => Range(min, max, self.range.2),
+            },
             constants: self.constants.clone(),
         })
     }
